@@ -480,6 +480,7 @@ func (fr *Frame) binop(x *ssa.BinOp) Val {
 	case "Str":
 		switch x.Op {
 		case token.ADD:
+			fr.tick("(+ 1 (slen " + A + ") (slen " + B + "))") // concatenation copies both operands
 			return Val{C: []string{"(scat " + A + " " + B + ")"}}
 		case token.LSS, token.LEQ, token.GTR, token.GEQ:
 			r := fr.uf("str_lt", []string{A, B}, []string{"Str", "Str"}, "Bool")
@@ -673,6 +674,7 @@ func (fr *Frame) convert(x *ssa.Convert) {
 				famLeafSort[lf.Arr] = lf.Sort
 				arr := fr.q.get(fr.cur.st, lf.Arr)
 				fr.q.assume(fr.cur.reach, fmt.Sprintf("(= (slen %s) %s)", s, a.C[1]))
+				fr.tick("(+ 1 " + a.C[1] + ")") // the conversion copies the bytes
 				if !fr.q.optsNoContents() {
 					fr.q.assume(fr.cur.reach, fmt.Sprintf("(forall ((i Int)) (! (=> (and (<= 0 i) (< i %s)) (= (sat %s i) (select %s (+ %s i)))) :pattern ((sat %s i))))", a.C[1], s, arr, a.C[0], s))
 				}
@@ -686,6 +688,7 @@ func (fr *Frame) convert(x *ssa.Convert) {
 		if sl, ok := du.(*types.Slice); ok {
 			if eb, ok := underlying(sl.Elem()).(*types.Basic); ok && eb.Kind() == types.Uint8 {
 				n := "(slen " + a.C[0] + ")"
+				fr.tick("(+ 1 " + n + ")")
 				p := fr.allocN(fr.cur.st, n, 1)
 				lf := layoutOf(sl.Elem()).leaves[0]
 				famLeafSort[lf.Arr] = lf.Sort
@@ -968,4 +971,13 @@ func (fr *Frame) nextFacts(x *ssa.Next, v Val) {
 			fr.q.assume(fr.cur.reach, fmt.Sprintf("(=> %s (and (<= 0 %s) (< %s (slen %s))))", v.C[0], v.C[1], v.C[1], s))
 		}
 	}
+}
+
+
+// tick: charge steps to the ghost cost counter (cost mode only)
+func (fr *Frame) tick(t string) {
+	if fr.q.opts == nil || !fr.q.opts.Cost || fr.cur.st == nil {
+		return
+	}
+	fr.cur.st.v["$ticks"] = "(+ " + fr.q.get(fr.cur.st, "$ticks") + " " + t + ")"
 }
